@@ -164,21 +164,47 @@ func runC13(c *mon.Ctx) {
 			return
 		}
 		l.drv.Sleep(c13BaseMs * time.Millisecond)
+		addedMid := false
 		if c.Guard("panic:recording", in, func() {
 			for j, ch := range chunks {
 				l.drv.Sleep(time.Duration(deltas[j]) * time.Millisecond)
 				l.out.Send(ch)
+				if mode == 1 && !addedMid && j >= len(chunks)/2 && r.P(1, 2) {
+					// the container is used while the recording runs: other tracks are added to it
+					for k := 0; k < 3; k++ {
+						var other smf.Track
+						other.Add(0, smf.MetaText(fmt.Sprintf("other %d", k)))
+						other.Close(0)
+						file.Add(other)
+					}
+					addedMid = true
+					c.Count("tracks_added_while_recording", 1)
+				}
 			}
 			switch mode {
 			case 0:
 				stop()
 			case 1:
 				stop()
-				if len(file.Tracks) != 1 {
-					c.Violation("file-tracks", fmt.Sprintf("SMF.RecordFrom left %d tracks", len(file.Tracks)), in, 1, len(file.Tracks))
+				wantTracks := 1
+				if addedMid {
+					wantTracks = 4
+				}
+				if len(file.Tracks) != wantTracks {
+					c.Violation("file-tracks", fmt.Sprintf("SMF.RecordFrom left %d tracks, expected %d", len(file.Tracks), wantTracks), in, wantTracks, len(file.Tracks))
 					return
 				}
-				tr = file.Tracks[0]
+				// the recorded track is the one that starts with the tempo event
+				tr = nil
+				for _, t := range file.Tracks {
+					if len(t) > 0 && t[0].Message.Is(smf.MetaTempoMsg) {
+						tr = t
+					}
+				}
+				if tr == nil {
+					c.Violation("file-tracks", "no recorded track (starting with the tempo event) in the SMF after the recording was stopped", in, nil, nil)
+					return
+				}
 			default:
 				if e := stopErr(); e != nil {
 					c.Violation("recordto-error", "stop function of RecordTo failed: "+e.Error(), in, nil, e.Error())
